@@ -159,7 +159,7 @@ func judge(cf cfg, script []beh, out outcome, cancelAt time.Duration, allowed in
 	// --- the call stops with the last response or an error
 	if lastA != nil && out.err == nil {
 		switch cf.kind {
-		case kNone, kReader, kOneShot, kGetBodyErr:
+		case kNone, kReader, kOneShot, kGetBodyErr, kOneShotChunked, kGetBodyChunked:
 			if lastA.b.isError() || out.status != lastA.b.status(lastA.method) {
 				return &driver.Fail{Sig: "the call returned a response that is not the last answer of the registry",
 					Detail: detail(fmt.Sprintf("last answer %s", lastA.b))}, nil
